@@ -75,6 +75,14 @@ func genC18(t *rapid.T) C18Case {
 	}
 	g := newG(t, p18)
 	g.genWorld()
+	if chanceT(t, "classparams", 12) {
+		// the class carries an auth-url as a default of all its ingresses (IngressClass Parameters -> ConfigMap)
+		if ic := g.W.Get(world.KIngressClass, world.OurClass); ic != nil {
+			ic.Params = "class-params"
+			g.add(&world.Obj{Kind: world.KConfigMap, NS: world.CtlNS, Name: "class-params",
+				Data: map[string]string{"auth-url": rapid.SampledFrom([]string{"http://10.0.0.9:8080/auth", "http://10.0.0.10/check", "http://bad host/"}).Draw(t, "classauth")}})
+		}
+	}
 	twinURL := ""
 	if twinAuth && len(g.P.NS) > 1 {
 		// ... and the Services of that name have the same ports in every namespace
@@ -210,6 +218,23 @@ func frontendConflict(w *world.World, p ctlsim.Params, host string, ing *world.O
 var denyingKeys = []string{"auth-url", "oauth", "auth-type", "auth-secret", "allowlist-source-range", "whitelist-source-range", "denylist-source-range", "limit-rps", "limit-connections", "auth-tls-secret", "waf"}
 
 // c18Result summarises one evaluation of the written configuration.
+// c18ClassAuthURL: the auth-url that the ingress inherits from the Parameters (a ConfigMap of the controller's namespace)
+// of the IngressClass it names in spec.ingressClassName; "" if none.
+func c18ClassAuthURL(w *world.World, ing *world.Obj) string {
+	if ing.ClassName == nil {
+		return ""
+	}
+	ic := w.Get(world.KIngressClass, *ing.ClassName)
+	if ic == nil || ic.Params == "" {
+		return ""
+	}
+	cm := w.Get(world.KConfigMap, world.CtlNS+"/"+ic.Params)
+	if cm == nil {
+		return ""
+	}
+	return cm.Data["auth-url"]
+}
+
 var c18SvcURL = regexp.MustCompile(`^svc://([a-z0-9-]+/)?([a-z0-9-]+)(:[0-9a-z]+)?(/.*)?$`)
 
 // authProxyTarget follows a helper backend of the auth proxy (_auth_<port>: one server at 127.0.0.1:<port>) to the bind of
@@ -303,6 +328,11 @@ func c18Eval(s *ctlsim.Sim, objs []*world.Obj, params ctlsim.Params) (*Failure, 
 		ing := ingByName[rule.Ing]
 		authURL, hasURL := ing.Ann["auth-url"]
 		_, hasOAuth := ing.Ann["oauth"]
+		classURL := c18ClassAuthURL(w, ing)
+		if !hasURL && classURL != "" {
+			// the Parameters of the IngressClass named by spec.ingressClassName are defaults of every ingress of the class
+			authURL, hasURL = classURL, true
+		}
 		protected := (hasURL && authURL != "") || hasOAuth
 		res := cfg.Route(rq)
 		if res.Inconclusive() {
@@ -400,6 +430,9 @@ func c18Eval(s *ctlsim.Sim, objs []*world.Obj, params ctlsim.Params) (*Failure, 
 			if _, ok := ing.Ann[k]; ok {
 				restricted = true
 			}
+		}
+		if classURL != "" {
+			restricted = true
 		}
 		if restricted {
 			continue
